@@ -53,6 +53,10 @@ CHECKS = {
     "C21": ("pcsim", "exploration",
             "Two real PeerConnections on the simulated network are brought to one of five points of the connection's life (nothing negotiated, offer applied and gathering, ICE/DTLS in progress, connected, data and media flowing); 1-4 goroutines then call Close/GracefulClose on one peer at seeded fake-time offsets (0-1500 ms, many at the same instant), optionally while another goroutine keeps calling the mutating API and while the peer's event handlers take 0-700 ms of fake time on the connection's own goroutines. Oracle: every call returns (180 s fake budget); signaling and connection state are closed and stay closed; each of 10 mutating calls returns InvalidStateError; the connection-state handler reports nothing after closed; at the first quiescent instant after a GracefulClose returned no goroutine started by that peer (pprof-label attribution, runtime goroutine profile) is alive.",
             PC_NOTE + " The interleaving of close calls started at the same fake instant is the Go scheduler's (GOMAXPROCS=1 worker), not chosen by the PRNG; what the PRNG chooses is the point of the connection's life, the call mix and offsets, handler durations and the network.", TECH_PC + "; goroutine census via pprof labels at a quiescent instant", "§6 C21"),
+    "C40": ("pcsim", "exploration",
+            "One seeded generator of concurrent programs (2-6 goroutines x 3-10 calls over AddTrack, RemoveTrack, AddTransceiver*, CreateDataChannel, Get{Transceivers,Senders,Receivers}, the state/description getters, GetStats, WriteRTP, a final Close/GracefulClose in half the cases, plus one goroutine doing 1-3 serialized offer/answer rounds with a second real PeerConnection), run two ways. (a) Race-detector build, real goroutines, real time, perturbation (yield / microsecond sleep) at every instrumented lock/atomic/receive site with the shim in a bookkeeping-free mode; oracle: the Go race detector (first report ends the run) and a 45 s watchdog for calls that do not return. (b) Ordinary build in a fake-time bubble under the seeded cooperative scheduler with scheduling points at every lock/atomic site of peerconnection.go, rtptransceiver.go, rtpsender.go, rtpreceiver.go, sctptransport.go, stats_go.go, track_local_static.go; oracle: every task finishes (a lock-order or wait-for cycle leaves tasks that can never run).",
+            "In (a) the interleaving is the Go runtime's, perturbed, not chosen by the seed: a scheduler that decides every step hands control between goroutines through synchronisation the race detector would count as happens-before, hiding the races it is there to find; the seed decides the program, and replay is statistical (decision-exact, 10 fresh processes). The simulated network's own mutex is shared by packet-sending goroutines and may hide races between them. (b) is replayable from its recorded schedule like the other cooperative checks. " + COOP_NOTE,
+            "seeded concurrent-program generation; (a) Go race detector + site perturbation, (b) deterministic simulation under the seeded cooperative scheduler (deadlock search)", "§6 C40"),
     "C20": ("pcsim", "exploration",
             "Same engine as C18 with local Close/GracefulClose, remote close, Send and PeerConnection.Close/GracefulClose tasks around the open handshake. A sampler reads readyState of every channel object (local and announced, both peers) at every scheduling step. Oracle: the sampled sequence never moves backwards along connecting < open < closing < closed; OnOpen and OnClose each run at most once per registration; Send on a channel that is not open returns an error; a channel on which Close returned is closed once both PeerConnections are closed.",
             PC_NOTE + " Runs in which a GracefulClose waits forever for a stream reset the remote never sends (channel closed before its open message was delivered; documented GracefulClose behaviour) are counted inconclusive.", TECH_COOP + " (focus-coop inside a whole-pair simulation, per-step state sampler)", "§6 C20"),
